@@ -1,4 +1,5 @@
 //! Some basic CSS support.
+use std::collections::HashSet;
 use std::ops::Deref;
 use std::rc::Rc;
 
@@ -202,6 +203,26 @@ impl Selector {
             Option<Handle>,
         );
         let mut alternatives: Vec<Alternative> = Vec::new();
+        // Where a choice has been made already: what was left of the
+        // selector and which ancestor it continued from.  The rest of the
+        // match depends on nothing else, so arriving at one of these a second
+        // time (by another combination of earlier choices) can only fail
+        // again; without this the combinations multiply and a short selector
+        // such as "x > div div > div div > div div" takes time exponential in
+        // the number of combinators on deeply nested elements.
+        let mut tried: HashSet<(usize, usize)> = HashSet::new();
+        let mut next_untried = |compound: &[SelectorComponent],
+                                above: &[SelectorComponent],
+                                start: Option<Handle>| {
+            let mut start = start;
+            loop {
+                let candidate = Self::nearest_matching(compound, start)?;
+                if tried.insert((above.len(), Rc::as_ptr(&candidate) as usize)) {
+                    return Some(candidate);
+                }
+                start = candidate.get_parent();
+            }
+        };
         let mut comps = comps;
         let mut node = node.clone();
         loop {
@@ -244,7 +265,12 @@ impl Selector {
                         // try the other ancestors.
                         let nearest_decides =
                             !matches!(above.first(), Some(SelectorComponent::CombChild));
-                        match Self::nearest_matching(compound, node.get_parent()) {
+                        let found = if nearest_decides {
+                            Self::nearest_matching(compound, node.get_parent())
+                        } else {
+                            next_untried(compound, above, node.get_parent())
+                        };
+                        match found {
                             Some(candidate) => {
                                 if !nearest_decides {
                                     alternatives.push((compound, above, candidate.get_parent()));
@@ -273,7 +299,7 @@ impl Selector {
                 match alternatives.pop() {
                     None => return false,
                     Some((compound, above, start)) => {
-                        if let Some(candidate) = Self::nearest_matching(compound, start) {
+                        if let Some(candidate) = next_untried(compound, above, start) {
                             alternatives.push((compound, above, candidate.get_parent()));
                             node = candidate;
                             comps = above;
